@@ -267,28 +267,33 @@ impl<W: Write> Session<W> {
             let vt = self.slots[s - 1].as_ref().unwrap();
             let (_c, rows) = vt.size();
             let mut w = 0usize;
-            let mut chunks = 0usize;
+            let mut chunks: Vec<Vec<usize>> = Vec::new();
+            let mut texts: Vec<String> = Vec::new();
+            let mut lens: Vec<usize> = Vec::new();
             for n in 0..rows {
                 let l = vt.line(n);
                 w += l.cells().iter().map(|c| c.width()).sum::<usize>();
-                chunks += l.chunks(|a, b| a.pen() != b.pen()).count();
+                chunks.push(l.chunks(|a, b| a.pen() != b.pen()).map(|c| c.len()).collect());
                 let _ = format!("{:?}", l);
-                let _ = l.text();
-                let _ = l.len();
+                texts.push(l.text());
+                lens.push(l.len());
                 let _ = l.is_empty();
+                let _ = l.chars().count();
             }
             let _ = vt.view().len();
             let _ = vt.lines().len();
-            let _ = vt.cursor();
-            let _: Option<(usize, usize)> = vt.cursor().into();
+            let cur = vt.cursor();
+            let opt: Option<(usize, usize)> = vt.cursor().into();
             let _ = vt.text();
             let _ = vt.dump();
             let _ = format!("{:?}", vt.cursor());
-            (w, chunks)
+            (w, chunks, texts, lens, cur.visible == opt.is_some())
         }));
         match r {
-            Ok((w, chunks)) => {
-                let _ = write!(self.buf, "{{\"ev\":\"q\",\"slot\":{},\"width\":{},\"chunks\":{}}}", s, w, chunks);
+            Ok((w, chunks, texts, lens, curopt)) => {
+                let _ = write!(self.buf, "{{\"ev\":\"q\",\"slot\":{},\"width\":{},\"chunks\":{:?},\"lens\":{:?},\"curopt\":{},\"texts\":", s, w, chunks, lens, curopt);
+                self.strings(&texts);
+                self.buf.push('}');
                 self.emit();
                 true
             }
